@@ -331,7 +331,7 @@ def actEnd (fid : Nat) (st : State) : State :=
 inductive Action where
   | connect (e g l s : Nat)
   | disconnect (e g l s : Nat)
-  | emit (e g : Nat)
+  | emit (e g v : Nat)
   | delL (l : Nat)
   | delE (e : Nat)
   | newL (l : Nat)
@@ -377,6 +377,16 @@ def machine : Machine State Nat (Option Nat) where
   next := next
   finish := actEnd
 
+/-- what the harness writes into its log: a slot invocation (listener index, slot, the argument
+    the slot received), the start of an `emit` call (emitter variable, signal, the argument given
+    to `emit`) and its return.  One number `v` stands for the argument tuple: the harness passes
+    `(v, v+1, …, v+k-1)` to the arity-`k` overload and the slot checks the whole tuple. -/
+inductive Ev where
+  | call (l s v : Nat)
+  | emitBegin (e g v : Nat)
+  | emitEnd
+  deriving Repr, Inhabited, DecidableEq
+
 /-- evaluator state: the machine; the harness's variables `em[i]` / `li[i]` (`emId i` / `lId i` = the
     object the variable refers to, `lIdx` = the index a listener object carries in its `id` field;
     `nextE` / `nextL` = the next unused object); the invocation counters; the invocation log (newest
@@ -389,13 +399,16 @@ structure Run (σ : Type) where
   nextE : Nat
   nextL : Nat
   inv : Nat → Nat → Nat
-  log : List (Nat × Nat)
+  log : List Ev
   bad : Bool
   oof : Bool
 
+/-- `.loop a p v`: the `for` loop of the `emit` call whose activation is `a`, at iterator position `p`;
+    `v` is the argument `arg0 …` of that `emit` call (a by-value parameter of `emit`, living in its frame,
+    handed to every slot the loop invokes) -/
 inductive Task (α π : Type) where
   | acts (as : List Action)
-  | loop (a : α) (p : π)
+  | loop (a : α) (p : π) (v : Nat)
 
 /-- one action that is not an emission (harness `doAct`; the actions name harness variables;
     guards: the objects the variables refer to still exist).  `newL` / `newE`: a variable whose
@@ -415,38 +428,42 @@ def Run.prim {σ α π : Type} (M : Machine σ α π) (r : Run σ) : Action → 
   | .newE e =>
     if M.aliveE r.m (r.emId e) then r
     else { r with emId := fun e' => if e' = e then r.nextE else r.emId e', nextE := r.nextE + 1 }
-  | .emit _ _ => r
+  | .emit _ _ _ => r
 
-/-- the harness's slot body prologue: log the invocation, count it -/
-def Run.enter {σ : Type} (r : Run σ) (l s : Nat) : Run σ :=
+/-- the harness's slot body prologue: log the invocation and the argument received, count it -/
+def Run.enter {σ : Type} (r : Run σ) (l s v : Nat) : Run σ :=
   { r with inv := fun l' s' => if l' = l ∧ s' = s then r.inv l s + 1 else r.inv l' s',
-           log := (l, s) :: r.log }
+           log := .call l s v :: r.log }
+
+/-- the harness's `fire` writes a mark before and after the `emit` call -/
+def Run.mark {σ : Type} (r : Run σ) (ev : Ev) : Run σ := { r with log := ev :: r.log }
 
 /-- The harness's `doAct`, the `emit` template and the slot bodies.  `.loop a p` is the `for`
     loop of `emit` of activation `a` from position `p`; `.acts` a script. -/
 def exec {σ α π : Type} (M : Machine σ α π) (P : Prog) : Nat → Run σ → Task α π → Run σ
   | 0, r, _ => { r with oof := true }
   | _ + 1, r, .acts [] => r
-  | n + 1, r, .acts (.emit e g :: as) =>
+  | n + 1, r, .acts (.emit e g v :: as) =>
     let r1 : Run σ :=
       if M.aliveE r.m (r.emId e) then
         match M.begin (r.emId e) g r.m with
-        | (m1, none) => { r with m := m1 }
+        | (m1, none) => ({ r with m := m1 }.mark (.emitBegin e g v)).mark .emitEnd
         | (m1, some (a, p)) =>
-          let r2 := exec M P n { r with m := m1 } (.loop a p)
-          { r2 with m := M.finish a r2.m }
+          let r2 := exec M P n ({ r with m := m1 }.mark (.emitBegin e g v)) (.loop a p v)
+          { r2 with m := M.finish a r2.m }.mark .emitEnd
       else r
     exec M P n r1 (.acts as)
   | n + 1, r, .acts (a :: as) => exec M P n (r.prim M a) (.acts as)
-  | n + 1, r, .loop a p =>
+  | n + 1, r, .loop a p v =>
     match M.next r.m a p with
     | .done => r
     | .fault => { r with bad := true }
     | .call l s p' =>
       if M.aliveL r.m l then
-        -- the slot body reads the listener's `id` field, logs it and runs its script
-        let r2 := exec M P n (r.enter (r.lIdx l) s) (.acts (P.script (r.lIdx l) s (r.inv (r.lIdx l) s)))
-        exec M P n r2 (.loop a p')
+        -- the slot is called with (a copy of) `emit`'s argument; its body reads the listener's `id` field,
+        -- logs it with the argument received and runs its script
+        let r2 := exec M P n (r.enter (r.lIdx l) s v) (.acts (P.script (r.lIdx l) s (r.inv (r.lIdx l) s)))
+        exec M P n r2 (.loop a p' v)
       else { r with bad := true }
 
 /-- no emission in progress; every object id denotes a freshly constructed (`new Emitter` /
